@@ -131,7 +131,8 @@ pub fn gen_raw(t: &mut Tape, o: &RawOpts) -> raw::Library {
             keys.push(layers.add(l));
         }
     }
-    let ncells = t.range(1, 5);
+    // mostly a handful of cells; one library in 40 has 64-130 of them (thresholds at which an exporter may change strategy)
+    let ncells = if t.chance(1, 40) { *t.pick(&[63u64, 64, 65, 100, 128, 130]) } else { t.range(1, 5) };
     let mut cells: Vec<Ptr<raw::Cell>> = Vec::new();
     let mut list: PtrList<raw::Cell> = PtrList::new();
     for ci in 0..ncells {
